@@ -278,6 +278,8 @@ func c03Cases(tier string) []c03Case {
 	return out
 }
 
+var c03NoDefaultPrompt bool
+
 // c03Register sets up the fixed registrations used by C03/C06/C14.
 func c03Register(r *Rig) {
 	r.RegisterTool(mcp.NewTool("t", mcp.WithDescription("test tool"), mcp.WithString("mode")), func(ctx context.Context, req *mcp.CallToolRequest) (*mcp.CallToolResult, error) {
@@ -304,7 +306,10 @@ func c03Register(r *Rig) {
 	r.RegisterPrompt(&mcp.Prompt{Name: "perr"}, func(ctx context.Context, req *mcp.GetPromptRequest) (*mcp.GetPromptResult, error) {
 		return nil, errors.New("boom-7f3a")
 	})
-	r.RegisterPrompt(&mcp.Prompt{Name: "pdefault", Description: "default rendering", Arguments: []mcp.PromptArgument{{Name: "x", Required: true}}}, nil)
+	if !c03NoDefaultPrompt {
+		// (SSEServer / StdioServer refuse a nil handler: the differential check C14 leaves this one out)
+		r.RegisterPrompt(&mcp.Prompt{Name: "pdefault", Description: "default rendering", Arguments: []mcp.PromptArgument{{Name: "x", Required: true}}}, nil)
+	}
 	r.RegisterResource(&mcp.Resource{Name: "r", URI: "res://r", MimeType: "text/plain"}, func(ctx context.Context, req *mcp.ReadResourceRequest) (mcp.ResourceContents, error) {
 		return mcp.TextResourceContents{URI: "res://r", MIMEType: "text/plain", Text: "content"}, nil
 	})
